@@ -200,6 +200,15 @@ def handleC15 (cmd : String) (args : List Sexp) : Option Sexp :=
       pure (match delField tc key with
         | .error e => tagged "err" [errToSexp e]
         | .ok tc' => tagged "ok" [tcToSexp tc'])
+  -- (c15.dropstale (entries…) (nt…)): `_non_tensordict` after the wrapper's pruning
+  | "c15.dropstale", [.list es, .list nt] => do
+      let tc : TC (TDm String String) String := ⟨"C", ⟨← entries? es, false⟩, ← nt? nt⟩
+      pure (ntToSexp (dropStale tc).nt)
+  -- (c15.update filterNone (dst entries…) (dst nt…) (src entries…) (src nt…))
+  | "c15.update", [b, .list des, .list dnt, .list ses, .list snt] => do
+      let dst : TC (TDm String String) String := ⟨"C", ⟨← entries? des, false⟩, ← nt? dnt⟩
+      let src : TC (TDm String String) String := ⟨"C", ⟨← entries? ses, false⟩, ← nt? snt⟩
+      pure (tcToSexp (updateTc (← bool? b) dst src))
   | _, _ => none
 
 end TdVerif.Drive
